@@ -47,8 +47,13 @@ def source_quirks():
         rng = True
     else:
         rng = None
-    # 2. the sequence increment of generate_next_atomic
-    if re.search(r"== u64::MAX \{ let next_millis = prev_millis\.checked_add\(1\)\?", flat):
+    # 2. the sequence increment of generate_next_atomic (+ the engine's refusal at the top of the ID space)
+    try:
+        eng = re.sub(r"\s+", " ", _strip_comments(open(os.path.join(REPO, "src", "storage", "engine.rs"), encoding="utf-8", errors="replace").read()))
+    except OSError:
+        eng = ""
+    if re.search(r"last_seq\.load\(Ordering::Relaxed\)\.checked_add\(1\)", flat) and re.search(r"prev_millis\.checked_add\(1\)", flat) \
+            and re.search(r"last_id\(\) == StreamId::max\(\)", eng):
         carry = True
     elif re.search(r"StreamId::new\(prev_millis, seq \+ 1\)", flat):
         carry = False
@@ -142,6 +147,7 @@ class Exec:
         self.impl = impl_driver("stream")
         self.model = lean_driver("stream")
         q = [False if x is None else x for x in quirks]
+        self.q = q
         ans = self.model.ask("cfg %d %d %d" % tuple(int(x) for x in q))
         if ans != "ok":
             raise InternalError("Lean driver refused cfg: %r" % ans)
@@ -223,6 +229,15 @@ class Exec:
             a_cmp = "id %d %d" % (ms, seq)
             extra = {"prev_top": id_text(self.top), "returned": id_text((ms, seq)), "clock_bracket": [t0, t1]}
             ok_oracle = s == "ok"
+            if self.q[1] and self.top == (U64, U64):
+                # repaired tree, top of the ID space: StorageEngine::xadd refuses before Stream::add_auto is called, so
+                # this call is not reachable by a client (the refusal is exercised at command level).  The generator
+                # must still be total: it saturates.  Compared with the Code model only; the history ends here.
+                rep.count("auto.saturated-unreachable")
+                rep.nontrivial(("auto", "saturated"))
+                if a_cmp != c:
+                    self.record("disagree", "auto at the top of the ID space: implementation %s, Code model %s" % (a_cmp, c), line, a_cmp, c, s, extra)
+                raise Fail()
             # the clock: a new millisecond must lie in the bracket of the call; staying on the old one
             # is legitimate only when the clock has not passed it (1 ms cache lag; gross misses only)
             miss = 0
@@ -568,6 +583,10 @@ def run_cmd_template(ex, t):
     kind, r, key = t[0], t[1], t[2]
     if kind == "xadd":
         idt = b"*" if t[3] == "*" else cmd_idtext(r, ex, key) if t[3] == "any" else None
+        if t[3] == "topseq":
+            top = ex.keys.get(key, ([], (0, 0)))[1]
+            ms = U64 if t[4] == "max" else clamp(max(top[0], int(time.time() * 1000)) + 10 ** 9)
+            idt = id_text((ms, U64)).encode()
         if idt is None:
             top = ex.keys.get(key, ([], (0, 0)))[1]
             idt = id_text((clamp(top[0] + t[4][0]), clamp(top[1] + t[4][1]) if t[4][0] == 0 else t[4][1])).encode()
@@ -625,6 +644,9 @@ def gen_cmd_history(r, hist_no):
         if k < 5:
             ts.append(("xadd", sub, key, "gt", r.choice([(0, 1), (0, 2), (1, 0), (2, 0), (1, 5)]), gen_fields(r)))
         elif k < 7:
+            if r.chance(1, 6):
+                # an explicit ID with the last sequence number (ahead of the clock, or the very top), then `*`
+                ts.append(("xadd", sub, key, "topseq", r.choice(["future", "future", "max"]), gen_fields(r)))
             ts.append(("xadd", sub, key, "*", None, gen_fields(r)))
         elif k < 9:
             ts.append(("xadd", sub, key, "any", None, gen_fields(r)))
@@ -680,6 +702,10 @@ def classify(kind, det, findings):
                 ret = det["returned"].split("-")
                 if int(want[0]) == int(ret[0]) + 1 and want[1] == "0":
                     return f
+            if kind == "cmd:XADD" and det.get("returned") == "%d-0" % U64 and det.get("spec") == "err":
+                return f          # the top of the ID space: `*` must be refused, the wrap returns 2^64-1-0
+            if kind in ("debug-panic", "debug-arith") and (det["failing_op"].startswith("auto") or "2a" in det["failing_op"].split()[3:4]):
+                return f          # debug build: the overflowing `seq + 1` panics; release: wraps (answers differ from the prescribed ones)
         if m == "idtext-wraps":
             texts = []
             if kind == "parseid":
@@ -750,6 +776,20 @@ def corpus(ex):
     try:
         ex.cmd([b"XADD", b"y", b"99999999999999-18446744073709551615", b"f", b"v"], tag=("corpus",))
         ex.cmd([b"XADD", b"y", b"*", b"f", b"v"], tag=("corpus",))
+        ex.cmd([b"XADD", b"y", b"*", b"f", b"v"], tag=("corpus",))
+        ex.cmd([b"XRANGE", b"y", b"-", b"+"], tag=("corpus",))
+    except Fail:
+        pass
+    ex.begin("cmd")
+    try:
+        ex.cmd([b"XADD", b"z", b"18446744073709551615-18446744073709551615", b"f", b"v"], tag=("corpus",))
+        ex.cmd([b"XADD", b"z", b"*", b"f", b"v"], tag=("corpus",))
+        ex.cmd([b"XLEN", b"z"], tag=("corpus",))
+        ex.cmd([b"XADD", b"z", b"*", b"f", b"v"], tag=("corpus",))
+        ex.cmd([b"XRANGE", b"z", b"-", b"+"], tag=("corpus",))
+        ex.cmd([b"XDEL", b"z", b"18446744073709551615-18446744073709551615"], tag=("corpus",))
+        ex.cmd([b"XADD", b"z", b"*", b"f", b"v"], tag=("corpus",))
+        ex.cmd([b"XLEN", b"z"], tag=("corpus",))
     except Fail:
         pass
 
@@ -781,6 +821,42 @@ def exhaustive_small(ex):
         except Fail:
             pass
     ex.rep.extra["exhaustive_small_scope"] = "all 32 subsets of 5 IDs x all 49 bound pairs of a 7-point grid x COUNT none/0/1/2 x 2 directions, plus range_after: %d reads" % n
+
+
+def debug_arith_witness(rep, ex):
+    """thorough tier: the sequence-exhaustion witnesses on a harness built with overflow checks (the arithmetic of a debug
+    build of the server, where `seq + 1` panics and takes the whole server down — C06).  Repaired tree: no panic, same
+    answers as in release arithmetic.  Pinned tree: the panic is the debug face of finding C15-auto-seq-wrap."""
+    tdir = os.path.join(CACHE, "target-harness-dbg")
+    with BuildLock("cargo-harness-dbg"):
+        rc, out = run(["cargo", "build", "--offline", "--quiet", "--bin", "impl_stream", "--config", "profile.dev.overflow-checks=true",
+                       "--config", "profile.dev.debug-assertions=true", "--target-dir", tdir], cwd=HARNESS)
+    if rc != 0:
+        raise InternalError("harness with overflow checks does not build:\n" + out[-3000:])
+    p = LineProc([os.path.join(tdir, "debug", "impl_stream")], "impl-stream-dbg")
+    top = b"%d-%d" % (U64, U64)
+    fut = b"99999999999999-%d" % U64
+    lines = ["cmd " + " ".join(hx(x) for x in a) for a in
+             ([b"XADD", b"dbg-s", top, b"a", b"b"], [b"XADD", b"dbg-s", b"*", b"a", b"b"], [b"XADD", b"dbg-t", fut, b"a", b"b"], [b"XADD", b"dbg-t", b"*", b"a", b"b"])]
+    lines += ["new", "addid 99999999999999 %d ." % U64, "auto ."]
+    try:
+        ans = []
+        for i, l in enumerate(lines):
+            a = p.ask(l)
+            a = "abort" if a is None else " ".join(a.split()[:-2]) if a.startswith(("bulk", "err ", "id ")) and l != "new" else a
+            ans.append(a)
+            rep.evaluations += 1
+    finally:
+        p.close()
+    rep.extra["debug_arithmetic_witness"] = dict(zip(["XADD top", "XADD * at top", "XADD future-maxseq", "XADD * after it", "new", "addid future-maxseq", "auto after it"], ans))
+    want = ["bulk " + hx(top), "err", "bulk " + hx(fut), "bulk " + hx(b"100000000000000-0"), "ok", "ok", "id 100000000000000 0"]
+    for l, a, w in zip(lines, ans, want):
+        rep.nontrivial(("debug-arith", a.split()[0]))
+        if a != w:
+            kind = "debug-panic" if a in ("panic", "abort") else "debug-arith"
+            ex.trace = list(lines[:lines.index(l) + 1])
+            ex.level = "cmd" if l.startswith("cmd") else "stream"
+            ex.record(kind, "with overflow checks (debug build of the server): %s answers %s, prescribed %s" % (l[:60], a, w), l, a, None, w)
 
 
 def shrink_failure(ex_factory, templates, kind):
@@ -855,6 +931,8 @@ def main(tier, seed):
         "field maps are compared as sorted maps (HashMap in the code: duplicate names collapse, order is lost)",
         "command arguments are ASCII apart from a few invalid-UTF-8 probes; to_uppercase/from_utf8_lossy are modelled on ASCII",
         "atomic counters are modelled as Nat; XLEN theorem shows the subtraction never underflows",
+        "Id.isTop models `last_id == StreamId::max()` as `ms+1 >= 2^64 && seq+1 >= 2^64` (equal for u64 halves: theorem isTop_iff_eq_max)",
+        "Stream::add_auto at the very top of the ID space (saturating, repaired tree) is compared with the Code model only: StorageEngine::xadd refuses before calling it",
     ]
     quirks = source_quirks()
     rep.extra["source_switches"] = {"rangeEndFix": quirks[0], "seqCarry": quirks[1], "parseChecked": quirks[2]}
@@ -886,6 +964,8 @@ def main(tier, seed):
             rep.count("history.cmd")
             if h < 2:
                 rep.sample({"history": "cmd", "ops": [" ".join(unhx(x).decode("latin1") for x in l.split()[1:]) for l in ex.trace[:10]]})
+        if tier == "thorough":
+            debug_arith_witness(rep, ex)
     finally:
         ex.close()
     rep.traces_validated = rep.evaluations
